@@ -87,9 +87,17 @@ func TestVerifC08(t *testing.T) {
 							}
 							variants := []string{"ok"}
 							if role == "master" {
-								variants = []string{"ok", "pending", "stuck", "roerror", "rohang"}
+								variants = []string{"ok", "pending", "stuck", "stuck_offline", "roerror", "rohang"}
 							} else if role == "replica" {
 								variants = []string{"ok", "roerror"}
+							}
+							for _, c := range cs {
+								if c == "timing_out" && role != "cascade" {
+									// history: the replicas that time out during the first activation refuse connections from the
+									// second one on (the machine is back, its server is not): nothing is unreachable any more
+									variants = append(variants, "flip")
+									break
+								}
 							}
 							for _, v := range variants {
 								bases = append(bases, base{role, n, cs, ss, wsc, dis, v})
@@ -192,10 +200,13 @@ func TestVerifC08(t *testing.T) {
 					if b.role == "master" {
 						lh.Pend.Add(verifsim.Txn("h1:900"))
 					}
-				case "stuck":
+				case "stuck", "stuck_offline":
 					if b.role == "master" {
 						lh.Pend.Add(verifsim.Txn("h1:900"))
 						lh.KillIneffective = true
+						// history: offline_mode is ON already (an operator, the resetup flag, or an earlier fencing attempt
+						// whose second step failed) while semi-sync is still enabled and commits hang
+						lh.Offline = b.variant == "stuck_offline"
 					}
 				}
 				s.W.Unlock()
@@ -224,7 +235,19 @@ func TestVerifC08(t *testing.T) {
 					}
 				}
 				in := s.insts[local]
+				curCs := append([]string{}, b.cs...)
 				for tick := 0; tick < 3; tick++ {
+					if b.variant == "flip" && tick == 1 {
+						for i, c := range curCs {
+							h := fmt.Sprintf("h%d", i+2)
+							if c == "timing_out" && h != local {
+								s.W.SetNet(h, "ok")
+								s.W.Crash(h)
+								curCs[i] = "refusing"
+							}
+						}
+						hasUnreach = false
+					}
 					if in.app.state != stateLost {
 						in.app.state = stateLost
 					}
@@ -250,9 +273,9 @@ func TestVerifC08(t *testing.T) {
 					if firstUnreach == -2 {
 						firstUnreach = t0 + 1000 // probes time out after db_lost_check_timeout (1 s) before the clock is set
 					}
-					row := lostRow{Kind: "lost", Scn: id, Tick: tick, Role: b.role, N: b.n, Disabled: b.disabled, Conds: effConds(b.cs, local), SemiSync: b.semisync,
+					row := lostRow{Kind: "lost", Scn: id, Tick: tick, Role: b.role, N: b.n, Disabled: b.disabled, Conds: effConds(curCs, local), SemiSync: b.semisync,
 						Wsc: b.wsc, SinceMs: since, DelayMs: 5000, LocalUp: localUp, LocalMut: []string{}, RemoteMut: nn(obsRemote),
-						ROAccepts: b.variant == "ok" || b.variant == "pending", WaitingAck: wack, ROAfter: roAfter, Next: string(st), Variant: b.variant}
+						ROAccepts: b.variant == "ok" || b.variant == "pending" || b.variant == "flip", WaitingAck: wack, ROAfter: roAfter, Next: string(st), Variant: b.variant}
 					// the outcome of the (forced) read-only attempt = the result of its last statement
 					// before anything else (offline mode) is tried
 					lastRO, sawOffline := "", false
@@ -270,7 +293,7 @@ func TestVerifC08(t *testing.T) {
 						}
 					}
 					row.ROStuck = lastRO == "err:1205" || lastRO == "hang"
-					row.WaitingAck = wack && b.variant == "stuck"
+					row.WaitingAck = wack && strings.HasPrefix(b.variant, "stuck")
 					rows = append(rows, row)
 					// next tick: 2 s later (inside the delay), then 6 s later (beyond it)
 					if tick == 0 {
